@@ -50,6 +50,7 @@ type DAG struct {
 	Epochs []*EpochDAG
 	FP     uint64
 	Forks  int
+	Rejected *Ev
 }
 
 func (d *DAG) NumEvents() (n int) {
@@ -383,13 +384,14 @@ func Generate(r *rand.Rand, cfg *GenCfg) (*DAG, *Inst, error) {
 				continue
 			}
 			if err := g.Build(e); err != nil {
-				return nil, nil, fmt.Errorf("generator Build failed: %v", err)
+				return d, g, fmt.Errorf("generator Build failed: %v", err)
 			}
 			e.SetHashID(0)
 			if _, dup := g.In.DB[e.ID()]; dup {
 				continue
 			}
 			if err := g.Process(e); err != nil {
+				d.Rejected = e // the event the generating instance built and then refused (not part of Events)
 				return d, g, fmt.Errorf("generator instance rejected its own built event %s: %v", e.Name, err)
 			}
 			ed.Events = append(ed.Events, e)
